@@ -165,6 +165,41 @@ def edge_names(fn, s, kind, info):
     return out
 
 
+def reach_known(fn, start, local, variant):
+    """Blocks reachable from `start` given that `local` (and the locals it is moved into) holds an enum value of `variant`: a
+    switch on the discriminant of such a local follows its `variant` edge only."""
+    from facts import place_of
+    aliases = {local}
+    grew = True
+    while grew:
+        grew = False
+        for i, j, st in fn.stmts():
+            rv = st.get("rv", {})
+            if st["k"] == "assign" and not st["place"]["p"] and rv.get("k") == "use":
+                pl = place_of(rv["a"])
+                if pl and not pl["p"] and pl["l"] in aliases and st["place"]["l"] not in aliases:
+                    aliases.add(st["place"]["l"])
+                    grew = True
+    seen, work = set(), [start]
+    while work:
+        b = work.pop()
+        if b in seen:
+            continue
+        seen.add(b)
+        info = fn.switch_info(b) if fn.blocks[b]["term"]["k"] == "switch" else None
+        if info and info.get("kind") == "discr" and info["place"]["l"] in aliases and not [p for p in info["place"]["p"] if p != "*"]:
+            tgt = [t for v, t in info["targets"] if info["variants"].get(v) == variant]
+            if not tgt:
+                named = {info["variants"].get(v) for v, _ in info["targets"]}
+                if variant not in named:
+                    tgt = [info["otherwise"]]
+            work.extend(tgt)
+            continue
+        for lab, t in fn.succs(b):
+            work.append(t)
+    return seen
+
+
 def peel_not(ap):
     """Strip `!` wrappers: returns (apath, flipped)."""
     flip = False
